@@ -89,7 +89,7 @@ func init() {
 		"that the passes compute the right strings (single line, RE2-parsable, \\s always together with \\x0b, no inline flag group surviving): value-level facts about text produced by a third-party optimiser.",
 		nil,
 		func(c *Ctx, tier string) []*Result {
-			return []*Result{c.RuleEscParity(), c.RuleFlagSet(), keyHas(c.RuleMapOrder(), 1, "range field Flags"), c.RuleSanitize(), c.RuleTemplate(c.cmdFns("update")), c.RuleEscMatch()}
+			return []*Result{c.RuleEscParity(), c.RuleFlagSet(), inPkg(c.RuleMapOrder(), 1, "regex/operators"), c.RuleSanitize(), c.RuleTemplate(c.cmdFns("update")), c.RuleEscMatch()}
 		})
 
 	prop("C03", "other",
@@ -108,7 +108,7 @@ func init() {
 		nil,
 		func(c *Ctx, tier string) []*Result {
 			drop, handle := c.RuleErrCached()
-			return []*Result{c.RuleIsoOwner(), c.RuleFlagsReject(), keyHas(c.RuleIsoFresh(), 2, "regex/parser.parseFile"),
+			return []*Result{c.RuleIsoOwner(), c.RuleFlagsReject(), keyHas(c.RuleIsoFresh(), 2, ":regex/parser."),
 				inPkg(drop, 3, "regex/parser"), inPkg(handle, 3, "regex/parser")}
 		})
 
@@ -118,8 +118,8 @@ func init() {
 		"the set difference itself, duplicates, and CutSuffix semantics (value-level).",
 		nil,
 		func(c *Ctx, tier string) []*Result {
-			return []*Result{keyHas(c.RuleMapOrder(), 2, "buildIncludeExceptString", "replaceSuffixes"), c.RuleOrderKey(),
-				keyHas(c.RuleRxGroups(), 1, "parseLine"), keyHas(c.RuleScanErr(), 3, "replaceSuffixes", "removeExclusions", "buildinclusionLineMap"), c.RuleSuffixOps()}
+			return []*Result{inPkg(c.RuleMapOrder(), 2, "regex/parser"), c.RuleOrderKey(),
+				inPkg(c.RuleRxGroups(), 1, "regex/parser"), inPkg(c.RuleScanErr(), 3, "regex/parser"), c.RuleSuffixOps()}
 		})
 
 	prop("C07", "other",
@@ -128,7 +128,9 @@ func init() {
 		"anything outside the fragment; that undefined names stay literal and that definition lines contribute no entry (value-level).",
 		[]string{"definitions are acyclic and contain no computed names (quantifier of C07)"},
 		func(c *Ctx, tier string) []*Result {
-			return []*Result{c.RuleDefFragment(), keyHas(c.RuleMapOrder(), 3, "expandDefinitions"), keyHas(c.RuleIsoOwner(), 2, "Parser.variables")}
+			// every map iteration of the parser package except the ones that belong to C03/C06 alone
+			mo := inPkg(c.RuleMapOrder(), 1, "regex/parser")
+			return []*Result{c.RuleDefFragment(), mo, c.RuleIsoOwner()}
 		})
 
 	prop("C08", "other",
@@ -147,7 +149,7 @@ func init() {
 		nil,
 		func(c *Ctx, tier string) []*Result {
 			return []*Result{keyHas(c.RuleFsGuard([]string{"format"}), 1, "cmd format"), c.RuleFsSame([]string{"format"}),
-				keyHas(c.RuleErrFlags(), 1, "cmd.processAll:"), keyHas(c.RuleFsAlways([]string{"format"}), 1, "cmd format")}
+				inFns(c.RuleErrFlags(), c.cmdFns("format"), 0), keyHas(c.RuleFsAlways([]string{"format"}), 1, "cmd format")}
 		})
 
 	prop("C10", "other",
@@ -159,8 +161,8 @@ func init() {
 			fmtFns := c.cmdFns("format")
 			drop, handle := c.RuleErrCached()
 			_ = drop
-			return []*Result{inFns(c.RuleRxRebuild(), fmtFns, 7), c.RuleRxDisjoint(false), inFns(c.RuleRxGroups(), fmtFns, 7),
-				keyHas(handle, 2, "cmd.processFile:"), keyHas(c.RuleErrLog(), 2, "cmd.processFile:"), c.RuleFormatOnly()}
+			return []*Result{inFns(c.RuleRxRebuild(), fmtFns, 7), c.RuleRxDisjoint(tier == "thorough"), inFns(c.RuleRxGroups(), fmtFns, 7),
+				inFns(handle, fmtFns, 2), inFns(c.RuleErrLog(), fmtFns, 2), c.RuleFormatOnly()}
 		})
 
 	prop("C11", "other",
@@ -170,8 +172,8 @@ func init() {
 		nil,
 		func(c *Ctx, tier string) []*Result {
 			upd := c.cmdFns("update")
-			return []*Result{keyHas(c.RuleFsTarget([]string{"update"}), 1, "cmd update"), c.RuleSplitJoinFrame(), keyHas(inFns(c.RuleRxRebuild(), upd, 1), 1, "updateRegex"),
-				keyHas(c.RuleValidate(), 1, "cmd.processRule"), c.RuleTemplate(upd)}
+			return []*Result{keyHas(c.RuleFsTarget([]string{"update"}), 1, "cmd update"), c.RuleSplitJoinFrame(), inFns(c.RuleRxRebuild(), upd, 1),
+				inFns(c.RuleValidate(), upd, 1), c.RuleTemplate(upd)}
 		})
 
 	prop("C12", "other",
@@ -180,8 +182,12 @@ func init() {
 		"the round trip for regexes whose own text contains '\"@rx ' (value-level); that a second update is a no-op.",
 		nil,
 		func(c *Ctx, tier string) []*Result {
-			return []*Result{c.RuleSiblingLocator(), c.RuleCompareVerdict(), keyHas(c.RuleRxGroups(), 2, "readCurrentRegex", "updateRegex"),
-				keyHas(c.RuleErrFlags(), 1, "cmd.performCompare:"), c.RuleTemplate(c.cmdFns("update")), keyHas(c.RuleRxRebuild(), 1, "updateRegex")}
+			both := c.cmdFns("update")
+			for k := range c.cmdFns("compare") {
+				both[k] = true
+			}
+			return []*Result{c.RuleSiblingLocator(), c.RuleCompareVerdict(), keyHas(inFns(c.RuleRxGroups(), both, 2), 2, "regex.RuleRxRegex"),
+				inFns(c.RuleErrFlags(), c.cmdFns("compare"), 0), c.RuleTemplate(c.cmdFns("update")), inFns(c.RuleRxRebuild(), c.cmdFns("update"), 1)}
 		})
 
 	prop("C13", "other",
@@ -191,9 +197,9 @@ func init() {
 		nil,
 		func(c *Ctx, tier string) []*Result {
 			return []*Result{keyHas(c.RuleFsGuard([]string{"renumber-tests"}), 1, "cmd renumber-tests"), c.RuleFsSame([]string{"renumber-tests"}),
-				keyHas(c.RuleFsTarget([]string{"renumber-tests"}), 1, "cmd renumber-tests"), keyHas(c.RuleRxRebuild(), 2, "processYaml"),
-				keyHas(c.RuleScanErr(), 1, "processYaml"), inPkg(c.RuleRxGroups(), 3, "util"), c.RuleIsoGlobal("renumber-tests"),
-				keyHas(c.RuleErrFlags(), 1, "RenumberTests:"), c.RuleFsAlways([]string{"renumber-tests"})}
+				keyHas(c.RuleFsTarget([]string{"renumber-tests"}), 1, "cmd renumber-tests"), inFns(c.RuleRxRebuild(), c.cmdFns("renumber-tests"), 2),
+				inFns(c.RuleScanErr(), c.cmdFns("renumber-tests"), 1), inFns(c.RuleRxGroups(), c.cmdFns("renumber-tests"), 3), c.RuleIsoGlobal("renumber-tests"),
+				inFns(c.RuleErrFlags(), c.cmdFns("renumber-tests"), 0), c.RuleFsAlways([]string{"renumber-tests"})}
 		})
 
 	prop("C14", "other",
@@ -202,7 +208,7 @@ func init() {
 		"that all other text is untouched (value-level; a missing final newline is added).",
 		[]string{"semver.NewVersion accepts a subset of its anchored versionRegex (read from the library source in the module cache)", "the year is four digits (quantifier of C14; the command does not validate it)"},
 		func(c *Ctx, tier string) []*Result {
-			return []*Result{c.RuleRxIncl(), keyHas(c.RuleFsTarget([]string{"update-copyright"}), 1, "cmd update-copyright"), keyHas(c.RuleScanErr(), 1, "updateRules"),
+			return []*Result{c.RuleRxIncl(), keyHas(c.RuleFsTarget([]string{"update-copyright"}), 1, "cmd update-copyright"), inFns(c.RuleScanErr(), c.cmdFns("update-copyright"), 1),
 				c.RuleFsAlways([]string{"update-copyright"}), c.RuleTemplate(c.cmdFns("update-copyright")), c.RuleIsoGlobal("update-copyright")}
 		})
 
